@@ -174,8 +174,15 @@ HandleElementResult SaslManager::handleElement(const QDomElement &el)
         return Rejected;
     }
 
-    if (Success::fromDom(el)) {
-        finish(QXmpp::Success());
+    if (auto success = Success::fromDom(el)) {
+        if (m_saslClient->finish(success->additionalData)) {
+            finish(QXmpp::Success());
+        } else {
+            finish(AuthError {
+                u"Server reported success without authenticating itself"_s,
+                AuthenticationError { AuthenticationError::ProcessingError, {}, {} },
+            });
+        }
         return Finished;
     } else if (auto challenge = Challenge::fromDom(el)) {
         if (auto response = m_saslClient->respond(challenge->value)) {
@@ -275,7 +282,14 @@ HandleElementResult Sasl2Manager::handleElement(const QDomElement &el)
             return Finished;
         }
     } else if (auto success = Success::fromDom(el)) {
-        finish(std::move(*success));
+        if (m_state->sasl->finish(success->additionalData.value_or(QByteArray()))) {
+            finish(std::move(*success));
+        } else {
+            finish(AuthError {
+                u"Server reported success without authenticating itself"_s,
+                AuthenticationError { AuthenticationError::ProcessingError, {}, {} },
+            });
+        }
         return Finished;
     } else if (auto failure = Failure::fromDom(el)) {
         auto text = failure->text.isEmpty()
